@@ -140,14 +140,24 @@ def mapOf (xs : List (String × J)) : List (String × J) := xs.foldl (fun acc kv
 def secNames (j : J) : List String :=
   (j.getArr "security").flatMap fun req => match req with | .obj kvs => kvs.map (·.1) | _ => []
 
+/-- the reference index by kind: the positions that may carry a `$ref` of that kind -/
+def refKinds (d : J) : List (String × List Pos) := [
+  ("schema", allSchemas d), ("response", opResponses d), ("parameter", listedParams d),
+  ("pathItem", pathItemPositions d), ("items:header", headerItems d), ("items:parameter", paramItems d)]
+
+/-- the pattern / enum indexes by category: the owners of that category -/
+def patCats (d : J) : List (String × List Pos) := [
+  ("parameter", listedParams d ++ sharedParams d), ("header", headers d),
+  ("items", paramItems d ++ headerItems d), ("schema", allSchemas d)]
+
+def schemaEntry (p : Pos) : String × J :=
+  (key p.1, .obj [("name", .str (lastTok p.1)), ("top", .bool (isTopLevel p.1)), ("allOf", .bool (hasAllOf p.2)),
+                  ("ref", .str (Doc.refStr p.2))])
+
 /-- the expected indexes, in the JSON shape of `Index.toJson` -/
 def expected (d : J) : J :=
-  let refKinds : List (String × List Pos) := [
-    ("schema", allSchemas d), ("response", opResponses d), ("parameter", listedParams d),
-    ("pathItem", pathItemPositions d), ("items:header", headerItems d), ("items:parameter", paramItems d)]
-  let patCats : List (String × List Pos) := [
-    ("parameter", listedParams d ++ sharedParams d), ("header", headers d),
-    ("items", paramItems d ++ headerItems d), ("schema", allSchemas d)]
+  let refKinds := refKinds d
+  let patCats := patCats d
   let ops := operations d
   .obj [
     ("refs", .obj (refKinds.map fun kp => (kp.1, .obj (mapOf (refsOf kp.2))))),
@@ -157,9 +167,7 @@ def expected (d : J) : J :=
     ("allPatterns", .obj (mapOf (patCats.flatMap fun cp => patternsOf cp.2))),
     ("enums", .obj (patCats.map fun cp => (cp.1, .obj (mapOf (enumsOf cp.2))))),
     ("allEnums", .obj (mapOf (patCats.flatMap fun cp => enumsOf cp.2))),
-    ("schemas", .obj (mapOf ((allSchemas d).map fun p =>
-      (key p.1, .obj [("name", .str (lastTok p.1)), ("top", .bool (isTopLevel p.1)), ("allOf", .bool (hasAllOf p.2)),
-                      ("ref", .str (Doc.refStr p.2))])))),
+    ("schemas", .obj (mapOf ((allSchemas d).map schemaEntry))),
     ("ops", .obj (((ops.map (·.1)).eraseDups).map fun m =>
       (m, .obj (mapOf ((ops.filter fun o => o.1 = m).map fun o => (o.2.1, .str (o.2.2.2.getStr "operationId"))))))),
     ("consumes", mkStrs ((d.getStrs "consumes" ++ ops.flatMap fun o => o.2.2.2.getStrs "consumes").eraseDups)),
